@@ -75,7 +75,7 @@ class DPT2ByteFloat(DPTNumeric):
                 msb |= 0x80
 
             return DPTArray((msb, mantisse & 0xFF))
-        except ValueError as err:
+        except (ValueError, OverflowError) as err:
             raise ConversionError(
                 f"Could not serialize {cls.dpt_name()}", value=value
             ) from err
